@@ -8,7 +8,8 @@
 
   Modelled leniencies (both routes share them): integers from booleans, booleans from integers; `optional`/smart pointer
   from null; unknown struct members ignored; a null optional member is the same as an absent one; tuples take the leading
-  elements of a longer array; sets are sorted and de-duplicated. Not modelled (`unjudged`): integers out of the target's range
+  elements of a longer array; sets are sorted and de-duplicated (multisets sorted only; an unordered_set is compared as a set: the
+  check sorts its elements). A pair and a std::array take an array of exactly their length. Not modelled (`unjudged`): integers out of the target's range
   (as<T> converts modulo 2^n), integers from strings (prefix and radix rules of to_integer), anything converted to std::string
   other than a string (known finding D57: the basic_json route stringifies, the streaming route rejects).
 -/
@@ -29,7 +30,7 @@ mutual
     | str
     | bool
     | seq (t : Ty)
-    | set (t : Ty)                    -- std::set<std::string>
+    | set (t : Ty) (multi : Bool)     -- std::set / std::unordered_set of strings (multi = false), std::multiset (multi = true)
     | map (t : Ty)
     | tuple (ts : List Ty)
     | pair (a b : Ty)
@@ -59,6 +60,14 @@ def sortDedup (ss : List Bytes) : List Bytes :=
       | x :: xs => if keyLt s x then s :: x :: xs else x :: ins xs
     ins acc) []
 
+def insSorted (s : Bytes) : List Bytes → List Bytes
+  | [] => [s]
+  | x :: xs => if keyLt s x then s :: x :: xs else x :: insSorted s xs
+
+/-- a multiset keeps equal elements -/
+def sortAll (ss : List Bytes) : List Bytes :=
+  ss.foldl (fun acc s => insSorted s acc) []
+
 def allStr : List JVal → Option (List Bytes)
   | [] => some []
   | .str s :: xs => (allStr xs).map (s :: ·)
@@ -83,10 +92,10 @@ mutual
         | .ok ys => .ok (.arr ys)
         | .error e => .error e
       | _ => .error .conv
-    | .set t, v => match v with
+    | .set t multi, v => match v with
       | .arr xs => match convList t xs with
         | .ok ys => match allStr ys with
-          | some ss => .ok (.arr ((sortDedup ss).map .str))
+          | some ss => .ok (.arr ((if multi then sortAll ss else sortDedup ss).map .str))
           | none => .error .unjudged
         | .error e => .error e
       | _ => .error .conv
